@@ -6,6 +6,14 @@ from .gen import nontrivial, rng_for, signature, to_json
 from .workload import all_cases
 
 FRESH = ["x-verif-ext", "__verif__", "vérifExt", "zzUnknown9", "$verif", "verif ext", "VerifExt"]
+def _deep(n):
+    x = []
+    for _ in range(n):
+        x = [x]
+    return x
+
+
+DEEP_PAYLOAD = _deep(700)  # legal JSON nested 700 levels deep (json.loads accepts ~990)
 PAYLOADS = [None, True, 0, -1.5, "s", "", [], {}, [1, {"a": None}], {"kind": "create", "id": 1, "range": {"start": {"line": 0, "character": 0}}}, {"documentSelector": None}, 2**40]
 
 
@@ -67,7 +75,7 @@ def inject(n, pick, rng, keys, counter, mm=None, declared=None):
             counter[0] += 1
             if pick(idx):
                 for kk in rng.sample(keys, rng.choice([1, 1, 2, 3])):
-                    out[kk] = rng.choice(PAYLOADS)
+                    out[kk] = rng.choice(PAYLOADS) if rng.random() > 0.04 else DEEP_PAYLOAD
                 if mm is not None and rng.random() < 0.7:
                     la = lookalikes(mm, n[1], declared)
                     for alt, p in rng.sample(la, min(len(la), rng.choice([1, 2, 4]))):
@@ -88,7 +96,20 @@ def inject(n, pick, rng, keys, counter, mm=None, declared=None):
         return inject(n[2], pick, rng, keys, counter, mm, declared)
 
 
+def scrub(j):
+    """witness copy with the 700-level payload replaced by a marker (it cannot be pretty-printed)"""
+    if j is DEEP_PAYLOAD:
+        return "<JSON array nested 700 levels deep>"
+    if isinstance(j, dict):
+        return {k: scrub(v) for k, v in j.items()}
+    if isinstance(j, list):
+        return [scrub(v) for v in j]
+    return j
+
+
 def shard(i, n, args):
+    import warnings
+
     tier = args[0]
     seed = common.seed()
     mm, py = ctx.load()
@@ -111,7 +132,10 @@ def shard(i, n, args):
             if not mm.valid(j, root.t):
                 continue
             try:
-                o0 = py.conv.structure(j, root.cls)
+                with warnings.catch_warnings(record=True) as wl0:
+                    warnings.simplefilter("always")
+                    o0 = py.conv.structure(j, root.cls)
+                base_warnings = len(wl0)
                 u0 = json.dumps(py.conv.unstructure(o0, root.cls), sort_keys=True)
             except Exception:
                 res["bases_skipped"] += 1  # base does not parse: C01's subject
@@ -140,9 +164,15 @@ def shard(i, n, args):
                 res["cases"] += 1
                 res["injections"] += cnt[1]
                 res["lookalikes"] = res.get("lookalikes", 0) + cnt[2]
-                wit = {"root": root.label, "case": lab, "plan": plab, "json": jp}
+                wit = {"root": root.label, "case": lab, "plan": plab, "json": scrub(jp)}
                 try:
-                    o1 = py.conv.structure(jp, root.cls)
+                    with warnings.catch_warnings(record=True) as wlist:
+                        warnings.simplefilter("always")
+                        o1 = py.conv.structure(jp, root.cls)
+                    if len(wlist) > base_warnings:
+                        # an environment that turns warnings into errors (-W error) would fail here
+                        fail("extra keys make structuring emit a warning (an error under -W error)|%s" % (wlist[-1].category.__name__), dict(wit, warning=str(wlist[-1].message)[:200]))
+                        continue
                 except Exception as e:
                     from .pyside import exc_key
 
@@ -159,7 +189,7 @@ def shard(i, n, args):
                 if u1 != u0:
                     fail("extra keys change the re-serialisation|%s" % root.kind, dict(wit, base=u0[:300], got=u1[:300]))
                 if len(res["samples"]) < 2 and res["cases"] % 173 == 1:
-                    res["samples"].append({"root": root.label, "plan": plab, "json_with_extras": jp})
+                    res["samples"].append({"root": root.label, "plan": plab, "json_with_extras": scrub(jp)})
     return res
 
 
